@@ -178,6 +178,32 @@ def run_batch(prop: str, engine: str, tier: str, base_seed: int, plan: dict) -> 
             elif tr.status == "harness":
                 harness_errors.append(f"regress {fn}: {tr.harness}")
 
+    # ---- open findings: each one is reproduced from its own replay file (strict mode), then steered around
+    findings_dir = os.path.join(VERIF, "findings", prop)
+    known_lines = []
+    for k in known:
+        if k.get("property") != prop or k.get("status") != "open":
+            continue
+        path = os.path.join(VERIF, k.get("replay", os.path.join("findings", prop, k["key"] + ".json")))
+        if not os.path.exists(path):
+            harness_errors.append(f"open finding {k['key']} has no replay file {path}")
+            continue
+        import contextlib as _cl2
+        import io as _io2
+
+        with open(path) as f:
+            rp = json.load(f)
+        with _cl2.redirect_stdout(_io2.StringIO()):
+            tr = kernel.execute(get(rp["engine"]), rp["seed"], rp.get("tier", tier), cfg=rp["cfg"], ops=rp["ops"], strict=True)
+        if tr.status == "violation" and tr.violation["invariant"] == k.get("invariant"):
+            known_lines.append(f"KNOWN-FINDING: property={prop} {k['key']}: {k.get('what', '')}")
+        elif tr.status == "harness":
+            harness_errors.append(f"finding replay {k['key']}: {tr.harness}")
+        elif tr.status == "violation":
+            regress_bad.append((path, tr.violation))
+        else:
+            known_lines.append(f"NOTE: property={prop} listed finding {k['key']} no longer reproduces on this tree")
+
     # ---- merge
     results.sort(key=lambda r: (r["faults"], r["seed"]))
     status = Counter(r["status"] for r in results)
@@ -251,9 +277,11 @@ def run_batch(prop: str, engine: str, tier: str, base_seed: int, plan: dict) -> 
 
     wall = time.monotonic() - t0
     evaluations = len(results)
+    for line in known_lines:
+        print(line)
     for k in known:
         if k.get("property") == prop and k.get("status") == "open" and known_hits.get(k["key"]):
-            print(f"KNOWN-FINDING: property={prop} {k['key']}: {k.get('what', '')} (hit {known_hits[k['key']]}x)")
+            print(f"KNOWN-FINDING: property={prop} {k['key']}: {k.get('what', '')} (hit {known_hits[k['key']]}x in the random batch)")
     for path, v in regress_bad:
         print(f"VIOLATION property={prop} replay={path}")
         print(f"  (regression of a fixed finding) invariant={v['invariant']} :: {v['detail'][:300]}")
